@@ -29,7 +29,7 @@ func main() {
 	w.Meta.Rule = "(i) hook-driven random histories on the real fixedCallFrameStack / autoGrowingCallFrameStack (sizes 1..40, targets around 8-frame boundaries and the capacity, dirty segment pool) and registry (initial 1..40, grow 0..64, max below/at/above the initial size), every returned value and the live cells compared; " +
 		"(ii) NewState option normalisation on boundary values, and NewState() without arguments after setting the package variables lua.CallStackSize / RegistrySize / RegistryGrowStep (the third way of configuring; also part of the Options matrix of (iii) and of the limit configurations of (iv), with limits below and above the built-in defaults); (iii) 12 program templates below every limit under 96 Options x {context, none} vs the reference configuration; " +
 		"(iii') 3 program templates that make a growable registry grow (descents through vararg functions with 1..3 named parameters, 0..6 arguments, tail calls, methods, __call; each descent in a fresh coroutine, alignment swept by 0..10 lifting frames x 0..6 arguments) under registries 128 growing by 1,2,3,7,8,31,32,33,64 vs the fixed reference; (iv) limit programs (recursion in Lua/coroutine/xpcall/metamethod/Go API, unpack/vararg/Go pushes/deep frames, also killing a coroutine.create/resume coroutine: resume false+message, status dead, running thread restored) with the need measured under far limits and N chosen so that need straddles each limit, then an epilogue on the same state. " +
-		"(vi) hand-over limit programs: a coroutine yields / returns / raises while its resumer (coroutine.resume, a wrap function, LState.Resume; main thread or a coroutine) holds N values, N chosen so that the status boolean and the values just fit / just do not: outcome by the measured need, and the coroutine must afterwards be suspended in its yield (the next resume continues its body) or dead; the same hand-over through the Go API on registries of 128..300 cells compared with the Coq model of switchToParentThread (CHandover); (vii) random coroutine-tree scripts (coroutines creating, resuming, outliving one another; creator != resumer; errors) under every kind of undone context (WithCancel, Background, deadline, attached late, removed before / during the run) vs the reference; context-tree histories through NewThread/Resume/Context().Err() against the ctxNode model (CCtx). (v) recursion through Go functions (nested pcall, __index, sort comparator, gsub callback) under large CallStackSize: a caught stack overflow at the same depth under every configuration. non-trivial = a history that crossed a segment boundary / reached capacity / grew or overflowed the registry; an option set that NewState changed; a non-reference configuration with a non-empty trace; a limit case with need within [limit-2, limit+9]; distinct by Gallina term"
+		"(vi) hand-over limit programs: a coroutine yields / returns / raises while its resumer (coroutine.resume, a wrap function, LState.Resume; main thread or a coroutine) holds N values, N chosen so that the status boolean and the values just fit / just do not: outcome by the measured need, and the coroutine must afterwards be suspended in its yield (the next resume continues its body) or dead; the same hand-over through the Go API on registries of 128..300 cells compared with the Coq model of switchToParentThread (CHandover); (vii) random coroutine-tree scripts (coroutines creating, resuming, outliving one another; creator != resumer; errors) under every kind of undone context (WithCancel, Background, deadline, attached late, removed before / during the run) vs the reference; context-tree histories through NewThread/Resume/Context().Err() against the ctxNode model (CCtx). (v) recursion through Go functions (nested pcall, __index, sort comparator, gsub callback, coroutines resuming coroutines) under large CallStackSize: a caught stack overflow at the same depth under every configuration. non-trivial = a history that crossed a segment boundary / reached capacity / grew or overflowed the registry; an option set that NewState changed; a non-reference configuration with a non-empty trace; a limit case with need within [limit-2, limit+9]; distinct by Gallina term"
 	r := lib.NewRand(a.Seed)
 	if a.Replay != "" {
 		replay(w, a.Replay)
